@@ -38,7 +38,7 @@ func buildLineOk(ctx *build.Context, line string) (ok bool) {
 		return true
 	}
 	// In line, evaluate the OR of space-separated options
-	options := strings.Split(strings.TrimSpace(line[6:]), " ")
+	options := strings.Fields(line[6:])
 	for _, o := range options {
 		if ok = buildOptionOk(ctx, o); ok {
 			break
@@ -61,6 +61,10 @@ func buildOptionOk(ctx *build.Context, tag string) bool {
 // buildTagOk returns true if a build tag matches, false otherwise
 // if first character is !, result is negated.
 func buildTagOk(ctx *build.Context, s string) (r bool) {
+	if s == "" {
+		// An empty tag (as in "a,,b") never matches, as in go/build.
+		return false
+	}
 	not := s[0] == '!'
 	if not {
 		s = s[1:]
